@@ -100,6 +100,7 @@ namespace Mass
 
 theorem bind_ok {α β} (a : α) (f : α → Except Err β) : (Except.ok a >>= f) = f a := rfl
 theorem pure_eq_ok {α} (a : α) : (pure a : Except Err α) = Except.ok a := rfl
+theorem pure_bind' {α β} (a : α) (f : α → Except Err β) : ((pure a : Except Err α) >>= f) = f a := rfl
 
 theorem foldlM_sum_ok {α} (f : α → Except Err Rat) (g : α → Rat) (l : List α) (a : Rat)
     (h : ∀ x ∈ l, f x = .ok (g x)) :
@@ -279,8 +280,17 @@ theorem residueMass_ok (mono : Bool) (seq : List Char) (hT : Gen.aaComp = residu
   cases hl : lookup c.toNat residueFormula with
   | none => rw [hl] at hk; simp at hk
   | some f =>
-    simp only [aaMass, hT, hl, Option.map_some, Option.getD_some]
+    have ha : aaMass mono c.toNat = (lookup c.toNat residueFormula).map (constMass mono) :=
+      congrArg (fun t => (lookup c.toNat t).map (constMass mono)) hT
+    have hb : aaMass mono c.toNat = some (constMass mono f) :=
+      ha.trans (congrArg (Option.map (constMass mono)) hl)
+    show (match aaMass mono c.toNat with
+      | none => Except.error Err.unknownAA
+      | some m => pure m) = Except.ok (lib.compMass mono ((some f).getD []))
+    rw [hb]
     rfl
+
+theorem constMass_eq (mono : Bool) (c : Comp) : constMass mono c = lib.compMass mono c := rfl
 
 /-- one entry of the backbone-offset table against what `adjust_mass` adds for that ion type -/
 def adjustEntryOk (mono : Bool) (p : Key × Rat) : Bool :=
@@ -313,12 +323,12 @@ theorem adjustMass_eq (hT : adjustTablesOk = true) (base : Rat) (charge : Option
   by_cases hp : (ion = ionP || ion = ionN) = true
   · simp only [hp, if_true] at he ⊢
     have hf : fragmentAdjMass mono ion = some v := of_decide_eq_true he
-    rw [bind_ok, hf, pure_eq_ok]
-    simp only
+    rw [pure_bind', hf]
+    show Except.ok (roundOpt _ precision) = Except.ok (roundOpt _ precision)
     congr 2
     show _ = base + v + (charge.getD 0 : Rat) * Gen.protonMass + (isotope : Rat) * Gen.neutronMass + loss
     ring
-  · simp only [hp] at he ⊢
+  · simp only [hp, Bool.false_eq_true, if_false] at he ⊢
     cases hfa : fragmentAdjMass mono ion with
     | none => rw [hfa] at he; simp at he
     | some fa =>
@@ -327,9 +337,8 @@ theorem adjustMass_eq (hT : adjustTablesOk = true) (base : Rat) (charge : Option
       | some fi =>
         rw [hfa, hfi] at he
         have hs : fa + fi = v + lib.hplus mono := of_decide_eq_true he
-        simp only [Bool.false_eq_true, if_false]
-        rw [bind_ok, pure_eq_ok]
-        simp only
+        rw [pure_bind']
+        show Except.ok (roundOpt _ precision) = Except.ok (roundOpt _ precision)
         congr 2
         show _ = base + v + (lib.hplus mono + ((charge.getD 0 : Int) - 1 : Rat) * Gen.protonMass)
           + (isotope : Rat) * Gen.neutronMass + loss
